@@ -51,8 +51,8 @@ def build_module(outdir, harness_c, defines=(), name=None, lib=None):
     hll = os.path.join(outdir, name + '.h.ll')
     inc = ['-I' + os.path.join(VERIF, 'harness'), '-I' + os.path.join(VERIF, 'oracle'), '-I' + os.path.join(outdir), '-I' + libdir, '-I' + os.path.join(REPO, 'src')]
     sh(['clang-14', '-O1', '-Xclang', '-disable-llvm-passes', '-S', '-emit-llvm'] + inc + CFLAGS + ['-D' + d for d in defines] + [harness_c, '-o', hll])
-    lcll = os.path.join(outdir, 'uk_libc.ll')
-    sh(['clang-14', '-O1', '-Xclang', '-disable-llvm-passes', '-S', '-emit-llvm', '-fno-builtin', os.path.join(VERIF, 'harness', 'uk_libc.c'), '-o', lcll])
+    lcll = os.path.join(outdir, name + '.libc.ll')
+    sh(['clang-14', '-O1', '-Xclang', '-disable-llvm-passes', '-S', '-emit-llvm', '-fno-builtin'] + ['-D' + d for d in defines] + [os.path.join(VERIF, 'harness', 'uk_libc.c'), '-o', lcll])
     linked = os.path.join(outdir, name + '.linked.ll'); final = os.path.join(outdir, name + '.ll')
     sh(['llvm-link-14', '-S'] + lls + [lcll, hll, '-o', linked])
     sh(['opt-14', '-S', '-passes=function(sroa)', linked, '-o', final])
